@@ -392,4 +392,51 @@ theorem dstIntegral_eq (x : ℝ) (F : List ℝ) : dstIntegral (sin x) (cos x) F 
 
 end DSTsec
 
+/-! ### the closed-form ellipsoid area -/
+
+section Authalic
+open Real GeoVerif.GeodLine GeoVerif.GeodLineX GeoVerif.Proofs.GeodLineX
+
+/-- **both solvers hold the same authalic radius**: for an oblate ellipsoid (`0 < f < 1`) `GeodesicExact`'s `_c2` (written with
+    `asinh √e′²`) and `Geodesic`'s (written with `e·atanh e` through `Math::eatanhe`) are the same real number, `(a² + b² atanh(e)/e)/2`;
+    `EllipsoidArea() = 4π c2` in both classes -/
+theorem c2_exact_eq_series (a f tiny eps0 : ℝ) (h0 : 0 < f) (h1 : f < 1) :
+    (geodesicX a f tiny eps0).c2 = (geodesic a f tiny eps0).c2 ∧
+    (geodesic a f tiny eps0).c2 = (a ^ 2 + (a * (1 - f)) ^ 2 * (Real.log ((1 + Real.sqrt (f * (2 - f))) / (1 - Real.sqrt (f * (2 - f)))) / 2 / Real.sqrt (f * (2 - f)))) / 2 := by
+  set e2 := f * (2 - f) with he2
+  have he2p : 0 < e2 := by rw [he2]; nlinarith
+  have he2l : e2 < 1 := by rw [he2]; nlinarith
+  set e := Real.sqrt e2 with he
+  have hep : 0 < e := Real.sqrt_pos.mpr he2p
+  have hesq : e ^ 2 = e2 := Real.sq_sqrt he2p.le
+  have hel : e < 1 := by
+    have : e ^ 2 < 1 ^ 2 := by rw [hesq]; linarith
+    exact lt_of_pow_lt_pow_left₀ 2 (by norm_num) this
+  have hf1 : 0 < 1 - f := by linarith
+  have hf1sq : (1 - f) ^ 2 = 1 - e ^ 2 := by rw [hesq, he2]; ring
+  have hsq1 : Real.sqrt (1 - e ^ 2) = 1 - f := by rw [← hf1sq, Real.sqrt_sq hf1.le]
+  have hrt : Real.sqrt (e2 / (1 - f) ^ 2) = e / Real.sqrt (1 - e ^ 2) := by
+    rw [Real.sqrt_div he2p.le, Real.sqrt_sq hf1.le, hsq1]
+  have hser : (geodesic a f tiny eps0).c2 = (a ^ 2 + (a * (1 - f)) ^ 2 * (Real.log ((1 + e) / (1 - e)) / 2 / e)) / 2 := by
+    unfold geodesic eatanhe1
+    simp only [lit_real, sq_real, eqb_real, ltb_real, sqrt_real, abs_real]
+    push_cast
+    simp only [← he2]
+    simp only [decide_eq_true_eq, if_neg he2p.ne', if_neg (not_lt.mpr h0.le), abs_of_pos he2p, ← he, one_mul, mul_one, if_pos hep]
+    show (a ^ 2 + (a * (1 - f)) ^ 2 * (e * (Real.log ((1 + e) / (1 - e)) / 2) / e2)) / _ = _
+    rw [← hesq]; field_simp
+  refine ⟨?_, hser⟩
+  rw [hser]
+  unfold geodesicX
+  simp only [lit_real, sq_real, eqb_real, ltb_real, sqrt_real, abs_real]
+  push_cast
+  simp only [← he2]
+  simp only [decide_eq_true_eq, if_neg h0.ne', if_pos h0, abs_of_pos he2p, ← he]
+  show (a ^ 2 + (a * (1 - f)) ^ 2 * (Real.arsinh (Real.sqrt (e2 / (1 - f) ^ 2)) / e)) / _ = _
+  rw [hrt, arsinh_eq_atanh e hep hel]
+
+example : (0 : ℝ) < 1 / 298 ∧ (1 / 298 : ℝ) < 1 := by norm_num
+
+end Authalic
+
 end GeoVerif.Props.C03
